@@ -118,3 +118,27 @@ PROPS["C05"] = {
     ],
     "floor_q": 5, "floor_t": 200,
 }
+
+def _hist(prop, units, technique, nt_rule, extra_assume=None, floor_q=5, floor_t=200):
+    PROPS[prop] = {
+        "level": "exploration", "technique": technique,
+        "rule": _HIST_RULE + nt_rule + "; distinct = hash of the whole case",
+        "assumptions": _HIST_ASSUME + (extra_assume or []),
+        "units": units, "floor_q": floor_q, "floor_t": floor_t,
+    }
+
+_hist("C01", [{"name": "ta-exclusive", "pkg": RESMGR, "run": "^TestVerifC01$", "replay_run": "^TestVerifC01Replay$", "q": 250, "t": 48000, "per_proc": 500}],
+      "rapid stateful request histories on a real topology-aware resource manager; oracle = set-algebra invariants over all live containers after every request (white-box grants + runtime model of told cpusets + advertised zones + configuration)",
+      "non-trivial = at least two containers held exclusive CPUs at the same time and a stop/update/re-create/reconfigure/synchronize followed")
+_hist("C03", [{"name": "ta-capacity", "pkg": RESMGR, "run": "^TestVerifC03$", "replay_run": "^TestVerifC03Replay$", "q": 250, "t": 48000, "per_proc": 500}],
+      "rapid stateful histories steered to fill pools; oracle = capacity ledger invariants per pool subtree + reference implementation of the documented eligibility table + kubelet shares formula",
+      "non-trivial = some pool hosting a shared container had < 1 CPU of shared capacity left in its subtree, or an exclusive grant sat at an inner pool whose children host shared containers")
+_hist("C04", [{"name": "ta-memory", "pkg": RESMGR, "run": "^TestVerifC04TA$", "replay_run": "^TestVerifC04TAReplay$", "q": 200, "t": 40000, "per_proc": 500}],
+      "rapid stateful histories with node-overflowing memory limits on NUMA-rich generated machines, both policies; oracle = told cpuset.mems (runtime model) vs the policy allocator's AssignedZone, node validity against the hardware model, and capacity of every node subset computed from the model",
+      "non-trivial = a create/update/cold-start completion changed the memory pinning of a container other than the request's own")
+_hist("C09", [{"name": "ta-leaks", "pkg": RESMGR, "run": "^TestVerifC09TA$", "replay_run": "^TestVerifC09TAReplay$", "q": 200, "t": 40000, "per_proc": 500}],
+      "rapid stateful histories with failing requests and reconfigure/synchronize while stopped containers are cached, followed by a generated drain; oracle = state after the drain equals a pristine instance of the final configuration, and no grant/membership/memory request ever belongs to a non-live container",
+      "non-trivial = the history had >= 1 failed request and >= 1 reconfigure/synchronize while a stopped container was still cached")
+_hist("C12", [{"name": "ta-optouts", "pkg": RESMGR, "run": "^TestVerifC12TA$", "replay_run": "^TestVerifC12TAReplay$", "q": 200, "t": 40000, "per_proc": 500}],
+      "rapid stateful histories in which a third of the pods carry cpu.preserve/memory.preserve (container, pod or bare form) or pinning is configured off; oracle = every adjustment/update/push addressed to an opted-out container is inspected before it is applied to the runtime model",
+      "non-trivial = an opted-out container existed while a later request changed the told cpuset or memory nodes of another container")
